@@ -79,10 +79,9 @@ func (u *UEPolicyPart) GetPartContent() []uint8 {
 
 func (u *UEPolicyPart) MarshalBinary() ([]byte, error) {
 	buf := bytes.NewBuffer(nil)
-	// len
-	if u.Len == 0 {
-		_ = u.SetLen_byContent()
-	}
+	// len: always derived from the content, a length kept from an earlier encoding or decoding would be
+	// stale once the content has been replaced
+	_ = u.SetLen_byContent()
 	if err := binary.Write(buf, binary.BigEndian, u.Len); err != nil {
 		return nil, err
 	}
